@@ -7,6 +7,7 @@ package c10
 import (
 	"context"
 	"database/sql"
+	"encoding/json"
 	"fmt"
 	"reflect"
 	"sort"
@@ -67,7 +68,7 @@ var autoVariants = []autoVariant{
 
 var naming = schema.NamingStrategy{}
 
-var dataKinds = []kind{kInt, kString, kBool, kFloat, kPString, kInt, kString, kPInt, kNullStr}
+var dataKinds = []kind{kInt, kString, kBool, kFloat, kPString, kInt, kString, kPInt, kNullStr, kJSON, kUnixtime}
 
 func genModel(rt *rapid.T) *model {
 	m := &model{NK: 1, Fields: []field{{Name: "ID", Col: "id", Kind: kInt, PK: true}}}
@@ -97,6 +98,9 @@ func genModel(rt *rapid.T) *model {
 			}
 		} else {
 			f = field{Name: fmt.Sprintf("F%d", i), Kind: rapid.SampledFrom(dataKinds).Draw(rt, "kind")}
+			if i == 1 && f.serialized() {
+				f.Kind = kInt // the first data field can always be named in a map
+			}
 			f.Perm = rapid.SampledFrom(permTags).Draw(rt, "perm")
 			switch f.Kind {
 			case kInt:
@@ -154,6 +158,66 @@ func genModel(rt *rapid.T) *model {
 			if rapid.IntRange(0, 2).Draw(rt, "emb") == 0 {
 				m.Fields[i].Emb = true
 				m.Fields[i].Col = embPrefix + m.Fields[i].Col
+			}
+		}
+	}
+	hasEmb := false
+	for _, f := range m.Fields {
+		hasEmb = hasEmb || f.Emb
+	}
+	if hasEmb {
+		m.EmbPerm = rapid.SampledFrom([]string{"", "", "<-", "<-", "<-:create", "<-:update", "->"}).Draw(rt, "embperm")
+		_, ec, eu := field{Perm: m.EmbPerm}.perms()
+		for i := range m.Fields {
+			f := &m.Fields[i]
+			if !f.Emb {
+				continue
+			}
+			if _, c, u := f.perms(); (c && !ec) || (u && !eu) {
+				// the embedded field would be allowed more than the embedding field: give it a tag of its own
+				var ok []string
+				for _, t := range []string{"<-:create", "<-:update", "<-:false", "->", "->:false", "->;<-:create", "->;<-:update"} {
+					if _, c, u := (field{Perm: t}).perms(); (!c || ec) && (!u || eu) {
+						ok = append(ok, t)
+					}
+				}
+				f.Perm = rapid.SampledFrom(ok).Draw(rt, "embinner")
+			}
+		}
+	}
+	if hasEmb && rapid.IntRange(0, 2).Draw(rt, "dupname") == 0 {
+		// an embedded field takes the Go name of an outer field (the columns differ through the prefix) and a
+		// different permission tag; such fields are spelled by column name only
+		plain := func(f field) bool {
+			known, _, _ := f.perms()
+			return known && !f.PK && f.Auto == "" && f.AutoTag == ""
+		}
+		var outer, inner []int
+		for i, f := range m.Fields {
+			if plain(f) && f.Emb {
+				inner = append(inner, i)
+			} else if plain(f) {
+				outer = append(outer, i)
+			}
+		}
+		if len(outer) > 0 && len(inner) > 0 {
+			x := rapid.SampledFrom(outer).Draw(rt, "dupouter")
+			e := rapid.SampledFrom(inner).Draw(rt, "dupinner")
+			_, ec, eu := field{Perm: m.EmbPerm}.perms()
+			var tags []string
+			for _, t := range []string{"", "<-", "<-:create", "<-:update", "<-:false", "->", "->;<-:create", "->;<-:update"} {
+				if _, c, u := (field{Perm: t}).perms(); t != m.Fields[x].Perm && (!c || ec) && (!u || eu) {
+					tags = append(tags, t)
+				}
+			}
+			if len(tags) > 0 {
+				f := &m.Fields[e]
+				f.Perm = rapid.SampledFrom(tags).Draw(rt, "dupperm")
+				f.Name = m.Fields[x].Name
+				if !f.ColTag {
+					f.Col = embPrefix + naming.ColumnName("", f.Name)
+				}
+				f.Dup, m.Fields[x].Dup = true, true
 			}
 		}
 	}
@@ -273,6 +337,10 @@ func litVal(f field, n int64) gval {
 		return gval{Cell: 95000 + n}
 	case kTime, kPTime:
 		return gval{Cell: givenBase.Add(time.Duration(n) * time.Minute)}
+	case kJSON:
+		return gval{Cell: fmt.Sprintf(`{"A":"j%d","B":%d}`, n, n)}
+	case kUnixtime:
+		return gval{Cell: time.Unix(1_900_000_000+n, 0).UTC()}
 	case kUnixSec:
 		return gval{Cell: 1_900_000_000 + n}
 	case kUnixMilli:
@@ -284,6 +352,9 @@ func litVal(f field, n int64) gval {
 }
 
 func spell(rt *rapid.T, f field, label string) string {
+	if f.Dup {
+		return f.Col // two fields share this Go name: only the column name is unambiguous
+	}
 	if known, _, _ := f.perms(); known && rapid.Bool().Draw(rt, label+".bycol") {
 		return f.Col
 	}
@@ -416,6 +487,9 @@ func genKVs(rt *rapid.T, m *model, noAutoUpdate, noIgnored bool, allowExpr int, 
 		if known, _, _ := f.perms(); noIgnored && !known {
 			continue
 		}
+		if f.serialized() {
+			continue // domain: a map value is bound as it is, the serializer is not applied (undocumented)
+		}
 		elig = append(elig, i)
 	}
 	if len(elig) == 0 {
@@ -483,8 +557,8 @@ func genOp(rt *rapid.T, m *model) (*op, string) {
 		} else {
 			o.Struct = genStructVals(rt, m, "a")
 			for i, f := range m.Fields {
-				if f.Auto == "update" {
-					delete(o.Struct, i)
+				if f.Auto == "update" || f.serialized() {
+					delete(o.Struct, i) // (Assign turns the struct into column = value pairs: serializer not applied)
 				}
 			}
 		}
@@ -523,7 +597,7 @@ func genOp(rt *rapid.T, m *model) (*op, string) {
 		selForm = genSelect(rt, m, o, false)
 		var elig []int
 		for i := m.NK; i < len(m.Fields); i++ {
-			if !(o.hooks() && m.Fields[i].Auto == "update") {
+			if !(o.hooks() && m.Fields[i].Auto == "update") && !m.Fields[i].serialized() {
 				elig = append(elig, i)
 			}
 		}
@@ -592,7 +666,7 @@ func genHistory(rt *rapid.T, m *model, o *op) {
 	if eligible && rapid.IntRange(0, 4).Draw(rt, "setcolumn") == 0 {
 		var cand []int
 		for i := m.NK; i < len(m.Fields); i++ {
-			if m.Fields[i].Auto == "" {
+			if m.Fields[i].Auto == "" && !m.Fields[i].serialized() {
 				cand = append(cand, i)
 			}
 		}
@@ -795,7 +869,7 @@ func genCreate(rt *rapid.T, m *model, o *op) string {
 		var elig []int
 		for i := m.NK; i < len(m.Fields); i++ {
 			known, cre, upd := m.Fields[i].perms()
-			if !known || !cre || !upd || sel.omit[i] || !sel.in(i) || m.Fields[i].DBDefault != "" {
+			if !known || !cre || !upd || sel.omit[i] || !sel.in(i) || m.Fields[i].DBDefault != "" || (o.Conflict == "doassign" && m.Fields[i].serialized()) {
 				continue
 			}
 			if isMap {
@@ -874,6 +948,14 @@ func goValue(m *model, fi int, g gval) interface{} {
 		}
 		t := g.Cell.(time.Time)
 		return &t
+	case kJSON:
+		var v jsonVal
+		if err := json.Unmarshal([]byte(g.Cell.(string)), &v); err != nil {
+			panic("harness: json value: " + err.Error())
+		}
+		return v
+	case kUnixtime:
+		return g.Cell.(time.Time).Unix()
 	}
 	return g.Cell
 }
@@ -1287,6 +1369,15 @@ func analyse(m *model, o *op, selForm string) caseInfo {
 		if f.DBDefault == "null" {
 			ci.classes["default:null"] = true
 		}
+		if f.Dup {
+			ci.classes["duplicate-go-name"] = true
+		}
+		if f.Emb && m.EmbPerm != "" {
+			ci.classes["embedded:outer-tag:"+m.EmbPerm] = true
+			if f.Perm != "" {
+				ci.classes["embedded:outer-tag+inner-tag"] = true
+			}
+		}
 		if f.Emb {
 			if m.EmbPtr {
 				ci.classes["embedded:pointer"] = true
@@ -1579,5 +1670,43 @@ func TestC10WitnessCreateMapsReturning(t *testing.T) {
 	var n int
 	if err := d.SQL.QueryRow("SELECT count(*) FROM c10_w").Scan(&n); err != nil || n != 2 {
 		t.Errorf("C10 violated: expected two new rows, found %d (%v)", n, err)
+	}
+}
+
+// ---- round 6 ---------------------------------------------------------------------------------------
+//
+// Not a finding (decided against C02's statement): Model(&Item{ID:4}).Where(a).Or(b).Update(..) builds
+// `a OR b AND id = 4`. The units of a chain - the model value's primary key included - combine left to
+// right with AND/OR under SQL precedence, so "the chain's conditions and the key" IS a OR (b AND key).
+// This check generates no Or; if it ever does, its reference must use that same flat combination.
+
+type witnessInner struct {
+	Name string
+}
+
+type witnessDupName struct {
+	ID   int64        `gorm:"primaryKey"`
+	Name string       `gorm:"<-:create"`
+	Meta witnessInner `gorm:"embedded;embeddedPrefix:meta_"`
+}
+
+// An outer create-only field and an embedded field share the Go name: the outer field's denial used to be
+// lost for map updates (SelectAndOmitColumns walked Schema.FieldsByName, one field per Go name). Repaired in
+// fb35f8e; regression witness.
+func TestC10WitnessDuplicateFieldName(t *testing.T) {
+	d := testdb.Open(testdb.Options{Config: gorm.Config{NowFunc: func() time.Time { return nowTime }}})
+	defer d.Close()
+	if _, err := d.SQL.Exec("CREATE TABLE c10_w4 (id integer PRIMARY KEY, name text, meta_name text); INSERT INTO c10_w4 VALUES (1,'a','m')"); err != nil {
+		t.Fatalf("harness: %v", err)
+	}
+	if err := d.DB.Table("c10_w4").Model(&witnessDupName{ID: 1}).Updates(map[string]interface{}{"name": "x"}).Error; err != nil {
+		t.Fatalf("C10 violated: %v", err)
+	}
+	var name string
+	if err := d.SQL.QueryRow("SELECT name FROM c10_w4 WHERE id = 1").Scan(&name); err != nil {
+		t.Fatalf("harness: %v", err)
+	}
+	if name != "a" {
+		t.Errorf("C10 violated: Model(&T{ID:1}).Updates(map{\"name\":\"x\"}) wrote the create-only column name (%q); T also embeds a struct with a field called Name", name)
 	}
 }
